@@ -317,7 +317,7 @@ theorem fast_out_fifo {s s1 : Irc} {h : Hist} {m : Msg} {rest : List Msg} (hi : 
 theorem takeAux_fifo : ∀ (fuel : Nat) (s : Irc), FifoStep s (takeAux fuel s)
   | 0, s => FifoStep.refl s
   | fuel + 1, s => by
-    unfold takeAux
+    unfold takeAux takeBody
     split
     · rename_i m rest hf
       split
@@ -382,5 +382,26 @@ theorem run_fifo : ∀ (ops : List Op) (s : Irc), FifoStep s (run s ops)
   | op :: ops, s => by
     unfold run
     exact FifoStep.trans (step_fifo s op) (run_fifo ops _)
+
+/-! ### the class invariant alone -/
+
+theorem FifoInv.of_classInv (s : Irc) (hc : ClassInv s.queue) :
+    FifoInv s ⟨s.fast, [], s.queue.high, [], s.queue.normal, [], s.queue.low, []⟩ :=
+  ⟨by simp, by simp, by simp, by simp, by simp, hc⟩
+
+theorem FifoStep.classInv {s : Irc} {r : Irc × List Ev} (h : FifoStep s r) (hc : ClassInv s.queue) :
+    ClassInv r.1.queue := (h _ (FifoInv.of_classInv s hc)).cls
+
+theorem dequeue_msg_classInv {limit now : Nat} {q q' : Queue} {m : Msg}
+    (hq : q.dequeue limit now = (q', .msg m)) (hc : ClassInv q) : ClassInv q' := by
+  let s : Irc := ⟨⟨0, 0, false, false, 0, [], []⟩, 0, q, [], 0, false, false, 0, false, false, [], 0⟩
+  have := dequeue_msg_fifo (s := s) (s' := { s with queue := q' }) hq (FifoInv.of_classInv s hc) rfl rfl rfl
+  exact this.cls
+
+theorem dequeue_rotated_classInv {limit now : Nat} {q q' : Queue} {m : Msg}
+    (hq : q.dequeue limit now = (q', .rotated m)) (hc : ClassInv q) : ClassInv q' := by
+  let s : Irc := ⟨⟨0, 0, false, false, 0, [], []⟩, 0, q, [], 0, false, false, 0, false, false, [], 0⟩
+  have := dequeue_rotated_fifo (s := s) (s' := { s with queue := q' }) hq (FifoInv.of_classInv s hc) rfl rfl rfl
+  exact this.cls
 
 end C19
